@@ -69,6 +69,10 @@ class XYParametricModel(ParametricModelBaseMixin, XYContainer):
         # resetting 'x' -> must reset entire data array
         self._data = np.zeros((2, len(new_x)))
         self._data[0] = new_x
+        # reset the references of the x uncertainty sources to the new support values (the y sources follow on recalculation)
+        for _err_dict in self._error_dicts.values():
+            if _err_dict["axis"] == 0:
+                _err_dict["err"].reference = self._get_data_for_axis(0)
         self._pm_calculation_stale = True
         self._clear_total_error_cache()
 
